@@ -63,6 +63,12 @@ def alphabet():
     # base of a member name used above
     for u in UIDS + ["a"]:
         ops.append(("post", u, 0))
+    # collection metadata: setting a display name (twice the same value: the second is a no-op)
+    for v in ("Name one", "Name two"):
+        ops.append(("meta", v))
+    # the next operation is carried out by a second store object opened on the same directory
+    # (another server process): what one handle keeps in memory must not be trusted across writes
+    ops.append(("other",))
     ops.append(("restart",))
     return ops
 
@@ -141,6 +147,8 @@ def run_history(backend, hist):
         is_git = backend != "vdir"
         commits = git_state(s)[0] if is_git else 0
 
+        meta_box = [None]
+
         def fail(msg, step):
             return {"backend": backend, "history": [list(o) for o in hist], "step": step, "expected": msg[0], "observed": msg[1], "log": log}
 
@@ -165,6 +173,7 @@ def run_history(backend, hist):
             if is_git:
                 ct = s.get_ctag()
                 snap = {n: M[n][1] for n in M}
+                snap["\x00displayname"] = meta_box[0]   # collection metadata is part of what the tag identifies
                 for (t, sn) in tags:
                     if (t == ct) != (sn == snap):
                         return fail((f"ctag equal iff contents equal (C08)", f"tag {t} for {sn} vs {ct} for {snap}"), step)
@@ -175,7 +184,8 @@ def run_history(backend, hist):
                         ch = sorted((n, o, nw) for (n, c_, o, nw) in s.iter_changes(t, ct))
                     except Exception as e:  # a token we issued must be accepted
                         return fail((f"iter_changes({t}, now) succeeds", f"{type(e).__name__}: {e}"), step)
-                    wantch = sorted((n, sn.get(n), snap.get(n)) for n in set(sn) | set(snap) if sn.get(n) != snap.get(n))
+                    wantch = sorted((n, sn.get(n), snap.get(n)) for n in set(sn) | set(snap)
+                                    if sn.get(n) != snap.get(n) and not n.startswith("\x00"))
                     if ch != wantch:
                         return fail((f"changes since {sn}: {wantch}", f"{ch}"), step)
                 bad = check_clean(s, backend)
@@ -184,10 +194,42 @@ def run_history(backend, hist):
             return None
 
         vcount = {}
+        handles = [s, None]
+        hidx = 0
+        meta = None
         for step, op in enumerate(hist):
+            meta_box[0] = meta
             if op[0] == "restart":
                 s = open_store(backend, path, False)
+                handles = [s, None]
+                hidx = 0
                 log.append("restart")
+            elif op[0] == "other":
+                hidx = 1 - hidx
+                if handles[hidx] is None:
+                    handles[hidx] = open_store(backend, path, False)
+                s = handles[hidx]
+                log.append(f"switch to store object #{hidx}")
+                continue
+            elif op[0] == "meta":
+                if not is_git:
+                    continue
+                _, value = op
+                before = git_state(s)[0]
+                try:
+                    s.set_displayname(value)
+                except Exception as e:
+                    return fail(("set_displayname succeeds", f"{type(e).__name__}: {e}"), step)
+                log.append(f"set_displayname({value!r})")
+                after = git_state(s)[0]
+                want_c = before + (0 if meta == value else 1)
+                if after != want_c:
+                    return fail((f"{want_c} commits (a property write is one commit, writing the value it already has is none: C09)", f"{after}"), step)
+                meta = value
+                meta_box[0] = meta
+                got = open_store(backend, path, False).get_displayname()
+                if got != value:
+                    return fail((f"display name {value!r} after a restart (C15)", f"{got!r}"), step)
             elif op[0] == "put":
                 _, name, uid, v, em = op
                 body = ics(uid, v).encode()
@@ -306,6 +348,18 @@ def histories(depth, seed, sample):
             yield from itertools.product(ops, repeat=k)
     else:
         # always include the known-interesting skeletons, then random ones
+        u1, u2 = UIDS
+        for sk in (
+            [("meta", "Name one"), ("meta", "Name one"), ("meta", "Name two")],
+            # another process changes a member's uid and gives the old uid to a new member; this
+            # process (whose in-memory uid map still says a.ics = u1) must then refuse u1 for a.ics
+            [("put", "a.ics", u1, 0, "none"), ("other",), ("put", "a.ics", u2, 0, "none"), ("put", "b.ics", u1, 0, "none"),
+             ("other",), ("put", "a.ics", u1, 1, "none")],
+            # ... deletes a member this process listed before; tags and listings must follow
+            [("put", "a.ics", u1, 0, "none"), ("other",), ("del", "a.ics", "none"), ("other",), ("put", "b.ics", u1, 0, "none")],
+            [("put", "a.ics", u1, 0, "none"), ("del", "a.ics", "none"), ("put", "a.ics", u1, 0, "none")],
+        ):
+            yield tuple(sk)
         for _ in range(sample):
             k = rng.randint(2, depth)
             yield tuple(rng.choice(ops) for _ in range(k))
